@@ -11,6 +11,8 @@ import SnapraidVerif.Filter.Rules
 import SnapraidVerif.Esc.Esc
 import SnapraidVerif.Hash.Murmur3
 import SnapraidVerif.Hash.Spooky2
+import SnapraidVerif.Props.C12
+import SnapraidVerif.Array.Scan
 
 open SnapraidVerif SnapraidVerif.GF SnapraidVerif.Raid SnapraidVerif.Codec
 
@@ -173,6 +175,35 @@ def handle (toks : List String) : String :=
      | some sd, some b =>
        if kind = "1" then hex8 (Hash.murmur3 sd b) else if kind = "2" then hex8 (Hash.spooky2 sd b) else "bad-op"
      | _, _ => "bad-op")
+  | ["effects-allowed", cmd, region] =>
+    let c : Option Props.C12.Cmd := match cmd with
+      | "status" => some .status | "diff" => some .diff | "list" => some .list | "dup" => some .dup
+      | "check" => some .check | "devices" => some .devices | "scrub" => some .scrub | "sync" => some .sync
+      | "fix" => some .fix | "pool" => some .pool | "touch" => some .touch | "rehash" => some .rehash | _ => none
+    let r : Option Props.C12.Region := match region with
+      | "data" => some .data | "parity" => some .parity | "content" => some .content | "pool" => some .pool
+      | "lock" => some .lock | "log" => some .log | _ => none
+    (match c, r with
+     | some c, some r => if Props.C12.allowed c r then "1" else "0"
+     | _, _ => "bad-op")
+  | "scan-classify" :: useInode :: rest =>
+    -- scan-classify <0|1> K <known…> C <copy sources…> P <present…>; entry = pathhex:size:sec:nsec:inode
+    let parseE (t : String) : Option Scan.FileId := match t.splitOn ":" with
+      | [p, a, b, c, d] => match (if p = "-" then some [] else parseHex8 p), a.toNat?, b.toNat?, c.toNat?, d.toNat? with
+        | some p, some a, some b, some c, some d => some { path := p, size := a, sec := b, nsec := c, inode := d }
+        | _, _, _, _, _ => none
+      | _ => none
+    let afterK := rest.drop 1
+    let known := afterK.takeWhile (· ≠ "C")
+    let afterC := (afterK.dropWhile (· ≠ "C")).drop 1
+    let copies := afterC.takeWhile (· ≠ "P")
+    let present := (afterC.dropWhile (· ≠ "P")).drop 1
+    match known.mapM parseE, copies.mapM parseE, present.mapM parseE with
+    | some k, some c, some p =>
+      let cls := p.map fun x => match Scan.classify (useInode = "1") k c x with
+        | .equal => "e" | .move => "m" | .restore => "r" | .change => "u" | .copy => "c" | .add => "a" | .copyOver => "o"
+      String.intercalate "" cls
+    | _, _, _ => "bad-op"
   | ["esc_tag", h] =>
     (match (if h = "-" then some [] else parseHex8 h) with
      | some b => let r := Esc.escTag b; if r.isEmpty then "-" else hex8 r
